@@ -16,7 +16,7 @@ def run(ctx):
     RL.maps_before_function_words(ctx, "R08.f")
     RL.function_word_tables(ctx, "R08.f")
     RR.component_formulas(ctx, "R08.g")
-    RR.bounded_selection(ctx, "R06.a")
+    RR.bounded_selection(ctx, "R06.a", check_limit_arg=False)
     return info("R08.a: each of chars/words/tails/trans/offset is stored at a smaller slot than the rating, slots are written "
                 "once and in range, Scores::iter walks front to back; R08.b: compare_hits is descending and each constrained "
                 "component has the documented sign; R08.c: only score_rating_up reads the rating; R08.d: function words are "
